@@ -2,7 +2,8 @@
    Only the property theorems; proofs in Proofs/IdentProofs.v.  The model carries the author
    name / e-mail / date and the message of a commit as one opaque identity (c_meta) plus the
    message text (c_subj); byte-level decoding and re-encoding (encoding header, encoding_rs)
-   is outside the model and judged by the end-to-end oracle of harness/p_c08.py. *)
+   is modelled separately (Model/Encoding.v, theorems at the end of this file) and tied to the
+   code by the re-creation correspondence of harness/p_c08.py. *)
 From Coq Require Import List NArith Bool.
 From StgV Require Import Model.Chars Model.Name Model.Stack Model.Cmd Model.StackSpec
   Model.IdentSpec Proofs.IdentProofs.
@@ -104,3 +105,62 @@ Theorem C08_squash_identity :
     \/ ident_of (w_objs w') o' = Some (meta, msg).
 Proof. exact squash_identity. Qed.
 Print Assumptions C08_squash_identity.
+
+From StgV Require Import Model.Encoding Proofs.EncodingProofs.
+Local Open Scope N_scope.
+
+(* ---- the text side: what re-creating a commit does to the message as git shows it
+   (Model/Encoding.v: message_ex, Message::encode_with, commit_with_options) ---- *)
+
+(* a commit with no encoding header or a utf-8 label keeps its message bytes exactly, for
+   i18n.commitEncoding unset or UTF-8 *)
+Theorem C08_recreate_utf8_exact :
+  forall h bytes c h' out,
+    (h = HAbsent \/ h = HUtf8) -> utf8_cfg c ->
+    recreate h bytes c = Some (h', out) ->
+    out = bytes /\ (h' = HAbsent \/ h' = HUtf8).
+Proof. exact recreate_utf8_exact. Qed.
+Print Assumptions C08_recreate_utf8_exact.
+
+(* every message in the modelled domain outside the class of F40 is shown by git with the
+   same text after the re-creation: undeclared / utf-8 commits, windows-1252 commits that git
+   can decode, and latin-1 commits without a byte in 0x80-0x9f *)
+Theorem C08_text_kept_outside_f40 :
+  forall h bytes c,
+    utf8_cfg c -> Forall is_byte bytes ->
+    (h = HAbsent \/ h = HUtf8 \/
+     (h = HW1252 /\ Forall (fun b => w1252_undefined b = false) bytes) \/
+     (h = HLatin1 /\ Forall (fun b => b < 128 \/ 159 < b) bytes)) ->
+    text_kept h bytes c.
+Proof. exact text_kept_outside_f40. Qed.
+Print Assumptions C08_text_kept_outside_f40.
+
+(* and such single-byte commits ARE re-created (the statement above is not vacuous) *)
+Theorem C08_recreate_w1252_text :
+  forall bytes c,
+    utf8_cfg c -> Forall is_byte bytes -> Forall (fun b => w1252_undefined b = false) bytes ->
+    exists h' out, recreate HW1252 bytes c = Some (h', out) /\
+                   git_text h' out = git_text HW1252 bytes.
+Proof. exact recreate_w1252_text. Qed.
+Print Assumptions C08_recreate_w1252_text.
+
+(* a label encoding_rs does not know: the command refuses, nothing is re-created *)
+Theorem C08_recreate_unknown_refused :
+  forall bytes c, recreate HUnknown bytes c = None.
+Proof. exact recreate_unknown_refused. Qed.
+Print Assumptions C08_recreate_unknown_refused.
+
+(* i18n.commitEncoding naming the commit's own single-byte encoding keeps bytes and label *)
+Theorem C08_recreate_same_single_byte_exact :
+  forall bytes,
+    recreate HLatin1 bytes CfgLatin1 = Some (HLatin1, bytes) /\
+    recreate HW1252 bytes CfgW1252 = Some (HW1252, bytes).
+Proof. exact recreate_same_single_byte_exact. Qed.
+Print Assumptions C08_recreate_same_single_byte_exact.
+
+(* F40 (known finding): the full statement is false for a latin-1 label with a byte in
+   0x80-0x9f - encoding_rs resolves the label to windows-1252 *)
+Theorem C08_latin1_c1_refuted :
+  exists bytes, Forall is_byte bytes /\ ~ text_kept HLatin1 bytes CfgNone.
+Proof. exact f40_latin1_c1_refuted. Qed.
+Print Assumptions C08_latin1_c1_refuted.
